@@ -188,9 +188,15 @@ def run(index, tier="quick", seed=0) -> Result:
             e = lens[0]
             kconst = e.right.const
             thr = kconst if e.op == "Gt" else kconst - 1
+            # the counted array: the vertex array itself, or an array with a known row offset from it (vertices[1:] ...)
+            counted = e.left.extra[1]
+            offs = [t[2] for t in (counted.tags if counted is not None else ()) if isinstance(t, tuple) and t[0] == "rows-of" and t[1] == "_vertices"]
+            if len(offs) != 1:
+                raise AnalysisError(f"EX-1: {k} counts `{e.src()[:40]}`, whose length is not related to the number of vertices in a recognised way")
+            thr = thr - offs[0]          # threshold expressed in the number of vertices
             if thr != dim + 1:
                 res.bad("EX-1", k + ":guard", e.where(),
-                        f"{k}: the residual test is applied only for len(vertices) {'>' if e.op == 'Gt' else '>='} {kconst}; the system is "
+                        f"{k}: the residual test (`{e.src()[:40]}`) is applied only for more than {thr} vertices; the system is "
                         f"overdetermined from {dim + 2} vertices on, so a shape with {dim + 2} vertices gets a ball that violates the definition")
             elif "RuntimeError" not in raised:
                 res.bad("EX-1", k + ":exc", e.where(), f"{k} raises {raised or 'nothing'}, not RuntimeError, when no ball exists")
@@ -213,6 +219,24 @@ def run(index, tier="quick", seed=0) -> Result:
     from ..parallel import report as _copy1
     _copy1(res, index, lambda f: f['top'] in ('circumsphere', 'insphere', 'circumcircle', 'incircle', 'minimal_bounding_sphere', 'minimal_bounding_circle', 'minimal_centered_bounding_circle', 'maximal_centered_bounded_circle', 'minimal_centered_bounding_sphere', 'maximal_centered_bounded_sphere'))
     _undo(res, index)
+    from ..dimscan import report_translation
+    _balls = ("circumsphere", "insphere", "circumcircle", "incircle", "minimal_bounding_sphere", "minimal_bounding_circle", "minimal_centered_bounding_circle", "maximal_centered_bounded_circle", "minimal_centered_bounding_sphere", "maximal_centered_bounded_sphere", "maximal_bounded_circle", "maximal_bounded_sphere")
+    report_translation(res, sc, lambda func, path: any(p_.split(".")[-1] in _balls for p_ in path[:1]) or func.split(".")[-1] in _balls,
+                       "ball properties")
+    # TR-2: a ball is built with a translation-invariant radius and a centre that moves with the shape
+    from ..trans import tr_of
+    for (cn_, member_, built_, args_, kwargs_, e_) in sc.constructs:
+        if built_ in ("Sphere", "Circle") and member_ in _balls and args_:
+            rt = tr_of(args_[0])
+            ct = tr_of(args_[1]) if len(args_) > 1 else tr_of(kwargs_.get("center"))
+            k_ = f"{cn_}.{member_}:ball"
+            if rt in ("T1", "TA", "TX", "MIX"):
+                res.bad("TR-2", k_ + ":radius:" + rt, e_.where(), f"{cn_}.{member_}: the radius of the returned ball depends on where the origin is "
+                        "(it changes when the shape is translated)")
+            elif ct in ("TA", "TX", "MIX"):
+                res.bad("TR-2", k_ + ":center:" + ct, e_.where(), f"{cn_}.{member_}: the centre of the returned ball does not move with the shape")
+            else:
+                res.ok("TR-2", k_, nontrivial=rt is not None)
     return res
 
 
